@@ -855,7 +855,16 @@ def t2_cases(draw):
         layers = "none"
     node_ids = sorted({nd["id"] for s in graphs.values() for nd in s["nodes"]})
     t1_ids = draw(st.lists(st.sampled_from(node_ids), max_size=3, unique=True)) if node_ids else []
-    return {"eps": eps, "graphs": graphs, "t2": t2, "agent": agent, "text": text, "t1_ids": t1_ids,
+    # earlier queries on the SAME index (other agents / texts): whatever the index or the fan-out memoises between calls
+    # must not leak into this one
+    pre = []
+    if mode == "plain" and draw(st.sampled_from([True, False])):
+        for _ in range(draw(st.integers(1, 2))):
+            pre.append({"agent": draw(st.sampled_from(["A", "B", "world"])),
+                        "text": " ".join(draw(st.lists(st.sampled_from(ep_words + world.VOCAB[:3]), min_size=1, max_size=3)))})
+        if draw(st.booleans()):
+            t2["owner_scope"] = "agent"
+    return {"pre": pre, "eps": eps, "graphs": graphs, "t2": t2, "agent": agent, "text": text, "t1_ids": t1_ids,
             "slice_k": draw(st.sampled_from([None, None, None, 0, 1, 2])), "workers": draw(st.sampled_from([3, 3, 4, 5, 6] if skewed else [2, 2, 3, 4, 5, 6, 8])),
             "prio": list(draw(st.permutations(list(range(12))))), "off": draw(st.sampled_from(OFF_MODES)),
             "metrics_gate": draw(st.sampled_from([False, False, True])), "layers": layers}
@@ -901,6 +910,13 @@ def run_t2_once(case, parallel: bool, tiers=None, known=None):
     state = {"store": store, "active_graphs": list(case["graphs"].keys()), "mem_index": idx}
     t1 = SimpleNamespace(graph_deltas=[{"op": "upsert_node", "id": i} for i in case["t1_ids"]], metrics={})
     id0 = world.index_digest(idx)
+
+    for pq in case.get("pre") or []:
+        pctx = world.make_ctx(cfg, agent=pq["agent"], now=world.NOW_ISO, now_ms=world.NOW_MS, enc=world.BowEncoder())
+        try:
+            core.t2_semantic(pctx, state, pq["text"], SimpleNamespace(graph_deltas=[], metrics={}))  # same path, free-running
+        except Exception:  # noqa: BLE001 - only the last call is compared
+            pass
 
     def view(res):
         return {"retrieved": [(str(h.id), float(h.score), h.text) for h in res.retrieved],
